@@ -13,6 +13,7 @@ pub mod c11;
 pub mod c12;
 pub mod c13;
 pub mod c14;
+pub mod c15;
 pub mod c16;
 pub mod c18;
 pub mod c19;
@@ -48,6 +49,7 @@ pub fn sim_check(id: &str, tier: &str, _seed: i64) -> Option<SimCheck> {
         "C12" => Some(c12::build(tier)),
         "C13" => Some(c13::build(tier)),
         "C14" => Some(c14::build(tier)),
+        "C15" => Some(c15::build(tier)),
         "C16" => Some(c16::build(tier)),
         "C18" => Some(c18::build(tier)),
         "C19" => Some(c19::build(tier)),
